@@ -26,6 +26,9 @@ Proof.
   destruct (nth_error l (Z.to_nat i)); [|discriminate]. intros [= ->]. reflexivity.
 Qed.
 
+Lemma match_nonempty {A B} (l : list A) (a b : B) : l <> [] -> match l with [] => a | _ :: _ => b end = b.
+Proof. destruct l; [congruence|reflexivity]. Qed.
+
 Lemma idx_nth_error {A} (l : list A) i x : 0 <= i -> nth_error l (Z.to_nat i) = Some x -> idx l i = Ok x.
 Proof. intros Hi E. unfold idx. destruct (Z.ltb_spec i 0); [lia|]. rewrite E. reflexivity. Qed.
 
@@ -277,7 +280,7 @@ Proof.
       rewrite Eg. cbn [bind].
       assert (Hv1 : vsound (bt_insert (a / 2) (hval t (a / 2)) v)).
       { apply vsound_insert; [assumption|]. pose proof (Z.div_mod a 2 ltac:(lia)). pose proof (Z.mod_pos_bound a 2 ltac:(lia)). lia. }
-      destruct (IH rest' (i + 2) nodes nodesF next' NF _ ptm1 ltac:(simpl in Hn; lia) E1 HF ltac:(lia)) as (v' & ptm' & Eg2 & Hv' & Hk' & Hn').
+      destruct (IH rest' (i + 2) nodes nodesF next' NF (bt_insert (a / 2) (hval t (a / 2)) v) ptm1 ltac:(simpl in Hn; lia) E1 HF ltac:(lia)) as (v' & ptm' & Eg2 & Hv' & Hk' & Hn').
       { intros a' Ha'. apply Hr. right. right. assumption. }
       { exact Hv1. }
       { intros a' Ha'. rewrite bt_get_insert. destruct (a' =? a / 2); [discriminate|]. apply Hk. right. right. assumption. }
@@ -312,7 +315,7 @@ Proof.
       rewrite Eg. cbn [bind].
       assert (Hv1 : vsound (bt_insert (a / 2) (hval t (a / 2)) v)).
       { apply vsound_insert; [assumption|]. pose proof (Z.div_mod a 2 ltac:(lia)). pose proof (Z.mod_pos_bound a 2 ltac:(lia)). lia. }
-      destruct (IH rest (i + 1) nodes1 nodesF next' NF _ ptm1 ltac:(simpl in Hn; lia) E1 HF ltac:(lia)) as (v' & ptm' & Eg2 & Hv' & Hk' & Hn').
+      destruct (IH rest (i + 1) nodes1 nodesF next' NF (bt_insert (a / 2) (hval t (a / 2)) v) ptm1 ltac:(simpl in Hn; lia) E1 HF ltac:(lia)) as (v' & ptm' & Eg2 & Hv' & Hk' & Hn').
       { intros a' Ha'. apply Hr. right. assumption. }
       { exact Hv1. }
       { intros a' Ha'. rewrite bt_get_insert. destruct (a' =? a / 2); [discriminate|]. apply Hk. right. assumption. }
@@ -329,7 +332,7 @@ Lemma levels_complete : forall (k : nat) I nodes NF v ptm,
   pb_levels k tn I nodes = Ok NF ->
   (forall a, In a I -> 2 ^ Z.of_nat k <= a < 2 ^ (Z.of_nat k + 1)) -> 2 ^ (Z.of_nat k + 1) <= N ->
   vsound v -> (forall a, In a I -> bt_get a v <> None) ->
-  exists v' ptm', glevels k NF I v (map zlen nodes) ptm = Ok (v', ptm') /\ vsound v' /\
+  exists v' ptm', glevels k NF I v (map zlen nodes) ptm = Ok (v', map zlen NF, ptm') /\ vsound v' /\
                   (I <> [] -> bt_get 1 v' <> None).
 Proof.
   induction k as [|k IH]; intros I nodes NF v ptm E Hr HN Hv Hk.
@@ -356,4 +359,272 @@ Proof.
     + exists v', ptm'. split; [assumption|]. split; [assumption|]. intros Hne. apply H1. apply Pne. assumption.
 Qed.
 
+(* ---------------------------------------------------------------- first loops *)
+Lemma hval_leaf_pair e : 0 <= e -> e mod 2 = 0 -> e + 1 < N ->
+  merge (leaf e) (leaf (e + 1)) = hval t ((e + N) / 2) /\ 1 <= (e + N) / 2 < N.
+Proof.
+  intros He Hev HeN. pose proof Npos. pose proof Neven.
+  pose proof (Z.div_mod (e + N) 2 ltac:(lia)). pose proof (Z.div_mod e 2 ltac:(lia)). pose proof (Z.div_mod N 2 ltac:(lia)).
+  assert (Hm : (e + N) mod 2 = 0).
+  { replace (e + N) with (0 + (e / 2 + N / 2) * 2) by lia. rewrite Z.mod_add by lia. reflexivity. }
+  split; [|lia].
+  rewrite (wf_merge _ _ _ _ _ WF ((e + N) / 2)) by (fold N; lia).
+  rewrite !(hval_leaf D d0 merge t d) by (assumption || (fold N; lia)). fold N. unfold leaf. do 2 f_equal; lia.
+Qed.
+
+Section First.
+Variable indexes : list Z.
+Variable imap : bmap Z.
+Hypothesis IM : imap_ok indexes imap.
+Let m := length indexes.
+
+Definition miss1 (k : Z) : list D := match bt_get k imap with Some _ => [] | None => [leaf k] end.
+Definition miss (e : Z) : list D := miss1 e ++ miss1 (e + 1).
+
+Lemma pb_leaf_ok k leaves : 0 <= k < N -> length leaves = m ->
+  exists leaves', pb_leaf t imap k leaves = Ok (leaves', miss1 k) /\ length leaves' = m /\
+    forall k' j, bt_get k' imap = Some j ->
+      (k' = k \/ nth_error leaves (Z.to_nat j) = Some (leaf k')) -> nth_error leaves' (Z.to_nat j) = Some (leaf k').
+Proof.
+  intros Hk HL. unfold Merkle.pb_leaf. rewrite (idx_Ok _ _ d0) by (rewrite leaves_len; lia). cbn [bind].
+  change (nth (Z.to_nat k) (mt_leaves t) d0) with (leaf k). unfold miss1.
+  destruct (bt_get k imap) as [j0|] eqn:E.
+  - pose proof (imap_ok_range _ _ _ _ IM E) as Hj0.
+    destruct (upd_Ok leaves j0 (leaf k)) as (l' & Eu & L & Nn); [unfold zlen in *; fold m in Hj0; lia|].
+    rewrite Eu. cbn [bind]. exists l'. split; [reflexivity|]. split; [lia|].
+    intros k' j Ek' Hor. rewrite Nn. pose proof (imap_ok_range _ _ _ _ IM Ek') as Hj.
+    destruct (Nat.eqb_spec (Z.to_nat j) (Z.to_nat j0)) as [Heq|Hne].
+    + assert (j = j0) by lia. subst j. rewrite (imap_ok_inj _ _ _ _ _ IM Ek' E). reflexivity.
+    + destruct Hor as [->|H]; [|exact H]. rewrite E in Ek'. injection Ek' as ->. contradiction.
+  - exists leaves. split; [reflexivity|]. split; [assumption|]. intros k' j Ek' [->|H]; [congruence|assumption].
+Qed.
+
+Lemma pb_first_ok : forall norm leaves0, length leaves0 = m ->
+  (forall e, In e norm -> 0 <= e /\ e mod 2 = 0 /\ e + 1 < N) ->
+  exists leavesF,
+    pb_first t imap N norm leaves0 = Ok (leavesF, map miss norm, map (fun e => (e + N) / 2) norm) /\
+    length leavesF = m /\
+    forall k j, bt_get k imap = Some j ->
+      (In (k - k mod 2) norm \/ nth_error leaves0 (Z.to_nat j) = Some (leaf k)) ->
+      nth_error leavesF (Z.to_nat j) = Some (leaf k).
+Proof.
+  induction norm as [|e rest IH]; intros leaves0 HL Hr.
+  - exists leaves0. cbn. split; [reflexivity|]. split; [assumption|]. intros k j E [[]|H]; assumption.
+  - cbn [Merkle.pb_first]. destruct (Hr e (or_introl eq_refl)) as (He0 & Hev & HeN). pose proof Nsmall.
+    destruct (pb_leaf_ok e leaves0) as (l1 & E1 & L1 & P1); [lia|assumption|]. rewrite E1. cbn [bind].
+    rewrite uadd_Ok by lia. cbn [bind].
+    destruct (pb_leaf_ok (e + 1) l1) as (l2 & E2 & L2 & P2); [lia|assumption|]. rewrite E2. cbn [bind].
+    rewrite uadd_Ok by lia. cbn [bind].
+    destruct (IH l2 L2) as (lF & EF & LF & PF); [intros e' He'; apply Hr; right; assumption|].
+    rewrite EF. cbn [bind]. exists lF. split; [cbn [map]; rewrite shiftr1; reflexivity|]. split; [assumption|].
+    intros k j Ek [[Hin|Hin]|H0].
+    + apply PF; [assumption|]. right. destruct (mod2_cases k) as [Ek2|Ek2]; rewrite Ek2 in Hin.
+      * assert (k = e) by lia. subst k. apply P2; [assumption|]. right. apply P1; [assumption|]. left. reflexivity.
+      * assert (k = e + 1) by lia. subst k. apply P2; [assumption|]. left. reflexivity.
+    + apply PF; [assumption|]. left. assumption.
+    + apply PF; [assumption|]. right. apply P2; [assumption|]. right. apply P1; [assumption|]. right. assumption.
+Qed.
+
+(* the proof handed to get_root *)
+Variable LF : list D.
+Variable NF : list (list D).
+Variable norm0 : list Z.
+Let p : bproof := {| bp_leaves := LF; bp_nodes := NF; bp_depth := Z.of_nat d |}.
+Hypothesis HLFlen : length LF = m.
+Hypothesis HLF : forall k j, bt_get k imap = Some j -> In (k - k mod 2) norm0 ->
+  nth_error LF (Z.to_nat j) = Some (leaf k).
+
+Lemma gleafv_ok k j : bt_get k imap = Some j -> In (k - k mod 2) norm0 -> gleafv D p j = Ok (leaf k).
+Proof.
+  intros E Hin. unfold Merkle.gleafv. cbn [bp_leaves p]. pose proof (imap_ok_range _ _ _ _ IM E) as Hj.
+  destruct (Z.leb_spec (zlen LF) j); [unfold zlen in *; fold m in Hj; lia|].
+  apply idx_nth_error; [lia|]. apply HLF; assumption.
+Qed.
+
+Lemma gleaf_ok s e ndN :
+  0 <= s -> nth_error NF (Z.to_nat s) = Some ndN -> prefix (miss e) ndN ->
+  0 <= e -> e mod 2 = 0 -> e + 1 < N -> In e norm0 ->
+  (bt_get e imap <> None \/ bt_get (e + 1) imap <> None) ->
+  gleaf p imap s e = Ok (leaf e, leaf (e + 1), zlen (miss e)).
+Proof.
+  intros Hs En [r Hp] He Hev HeN Hin Hor. pose proof Nsmall.
+  assert (He1 : (e + 1) - (e + 1) mod 2 = e).
+  { pose proof (Z.div_mod e 2 ltac:(lia)). replace (e + 1) with (1 + (e / 2) * 2) at 2 by lia.
+    rewrite Z.mod_add by lia. change (1 mod 2) with 1. lia. }
+  assert (He0 : e - e mod 2 = e) by lia.
+  unfold Merkle.gleaf. rewrite uadd_Ok by lia. cbn [bind].
+  unfold Merkle.gnode0. cbn [bp_nodes p]. rewrite (idx_nth_error NF s ndN) by assumption. cbn [bind].
+  unfold miss, miss1 in *.
+  destruct (bt_get e imap) as [j1|] eqn:E1; destruct (bt_get (e + 1) imap) as [j2|] eqn:E2.
+  - rewrite (gleafv_ok e j1 E1) by (rewrite He0; assumption). cbn [bind].
+    rewrite (gleafv_ok (e + 1) j2 E2) by (rewrite He1; assumption). reflexivity.
+  - rewrite (gleafv_ok e j1 E1) by (rewrite He0; assumption). cbn [bind].
+    subst ndN. reflexivity.
+  - subst ndN. cbn [app bind]. rewrite (gleafv_ok (e + 1) j2 E2) by (rewrite He1; assumption). reflexivity.
+  - destruct Hor; congruence.
+Qed.
+
+Lemma gfirst_ok : forall norm s v ptm NFr,
+  skipn (Z.to_nat s) NF = NFr -> 0 <= s ->
+  Forall2 (fun e nd => prefix (miss e) nd) norm NFr ->
+  (forall e, In e norm -> 0 <= e /\ e mod 2 = 0 /\ e + 1 < N /\ In e norm0 /\
+                          (bt_get e imap <> None \/ bt_get (e + 1) imap <> None)) ->
+  vsound v ->
+  exists v' ptm',
+    gfirst p imap N norm s v ptm =
+      Ok (v', map (fun e => zlen (miss e)) norm, ptm', map (fun e => (e + N) / 2) norm) /\
+    vsound v' /\ (forall k, bt_get k v <> None -> bt_get k v' <> None) /\
+    (forall e, In e norm -> bt_get ((e + N) / 2) v' <> None).
+Proof.
+  induction norm as [|e rest IH]; intros s v ptm NFr Hsk Hs HF Hr Hv.
+  - cbn. exists v, ptm. split; [reflexivity|]. split; [assumption|]. split; [auto|intros ? []].
+  - destruct NFr as [|nd NFr']; [inversion HF|]. assert (Hp : prefix (miss e) nd) by (inversion HF; assumption).
+    assert (HF' : Forall2 (fun e nd => prefix (miss e) nd) rest NFr') by (inversion HF; assumption).
+    apply skipn_cons_nth in Hsk. destruct Hsk as [En Hsk'].
+    destruct (Hr e (or_introl eq_refl)) as (He & Hev & HeN & Hin & Hor). pose proof Nsmall.
+    cbn [Merkle.gfirst]. rewrite (gleaf_ok s e nd) by assumption. cbn [bind].
+    rewrite uadd_Ok by lia. cbn [bind]. rewrite shiftr1. rewrite (Z.add_comm N e).
+    destruct (hval_leaf_pair e He Hev HeN) as [Hm Hrange]. rewrite Hm.
+    destruct (IH (s + 1) (bt_insert ((e + N) / 2) (hval t ((e + N) / 2)) v)
+                 (bt_insert ((e + N) / 2) (hval t ((e + N) / 2))
+                    (bt_insert (Z.lxor (e + N) 1) (leaf (e + 1)) (bt_insert (e + N) (leaf e) ptm))) NFr')
+      as (v' & ptm' & Eg & Hv' & Hk' & Hn').
+    + replace (Z.to_nat (s + 1)) with (S (Z.to_nat s)) by lia. assumption.
+    + lia.
+    + assumption.
+    + intros e' He'. apply Hr. right. assumption.
+    + apply vsound_insert; [assumption|lia].
+    + rewrite Eg. cbn [bind]. exists v', ptm'. split; [reflexivity|]. split; [assumption|]. split.
+      * intros k Hk0. apply Hk'. rewrite bt_get_insert. destruct (k =? (e + N) / 2); [discriminate|assumption].
+      * intros e' [<-|He']; [|apply Hn'; assumption]. apply Hk'. rewrite bt_get_insert_same. discriminate.
+Qed.
+
+End First.
+
+(* ---------------------------------------------------------------- batch_complete *)
+Lemma all_consumed_map (nodes : list (list D)) : all_consumed D (map zlen nodes) nodes = true.
+Proof. induction nodes as [|nd r IH]; [reflexivity|]. cbn. rewrite Z.eqb_refl. exact IH. Qed.
+
+Lemma mt_depth_ok : mt_depth D t = Ok (Z.of_nat d).
+Proof.
+  unfold Merkle.mt_depth. rewrite leaves_len. pose proof Npos.
+  destruct (Z.leb_spec N 0); [lia|]. unfold N. rewrite Z.log2_pow2 by lia. reflexivity.
+Qed.
+
+Theorem batch_complete_tree : forall indexes,
+  indexes <> [] -> zlen indexes <= 255 -> NoDup indexes -> (forall i, In i indexes -> 0 <= i < N) ->
+  exists p, mt_prove_batch t indexes = Ok p /\ bp_depth p = Z.of_nat d /\
+    length (bp_leaves p) = length indexes /\
+    (forall j i, nth_error indexes j = Some i -> nth_error (bp_leaves p) j = Some (leaf i)) /\
+    get_root p indexes = Ok (hval t 1).
+Proof.
+  intros indexes Hne Hlen ND Hr. pose proof Npos. pose proof Neven as HNe. pose proof Nsmall.
+  pose proof (wf_d _ _ _ _ _ WF) as Hd1.
+  destruct (map_indexes_complete indexes (Z.of_nat d)) as (imap & Emi & IM & Lmi); [lia|assumption|intros x Hx; apply Hr; assumption|].
+  set (norm := normalize_indexes indexes).
+  assert (Hnorm : forall e, In e norm -> 0 <= e /\ e mod 2 = 0 /\ e + 1 < N /\ In e norm /\
+                            (bt_get e imap <> None \/ bt_get (e + 1) imap <> None)).
+  { intros e He. pose proof He as He'. apply normalize_In in He. destruct He as (i & Hi & ->).
+    pose proof (Hr i Hi) as Hir. pose proof (Z.div_mod i 2 ltac:(lia)). pose proof (Z.div_mod N 2 ltac:(lia)).
+    assert ((i - i mod 2) mod 2 = 0).
+    { replace (i - i mod 2) with (0 + (i / 2) * 2) by lia. rewrite Z.mod_add by lia. reflexivity. }
+    destruct (imap_ok_In _ _ i IM ND Hi) as (j & Ej).
+    destruct (mod2_cases i) as [Ei|Ei]; rewrite Ei in *.
+    - repeat split; try lia; try assumption. left. replace (i - 0) with i by lia. congruence.
+    - repeat split; try lia; try assumption. right. replace (i - 1 + 1) with i by lia. congruence. }
+  unfold Merkle.mt_prove_batch. rewrite match_nonempty by assumption.
+  unfold max_paths. destruct (Z.ltb_spec 255 (zlen indexes)); [lia|].
+  rewrite mt_depth_ok. cbn [bind]. rewrite Emi. cbn [bind]. fold norm.
+  rewrite leaves_len.
+  destruct (pb_first_ok indexes imap IM norm (repeat d0 (length imap))) as (LF & Epf & LLF & PLF).
+  { rewrite repeat_length. assumption. }
+  { intros e He. destruct (Hnorm e He) as (? & ? & ? & _). auto. }
+  fold N. rewrite Epf. cbn [bind].
+  set (nodes0 := map (miss imap) norm) in *. set (next := map (fun e => (e + N) / 2) norm) in *.
+  set (d' := pred d). assert (Hdd : Z.of_nat d = Z.of_nat d' + 1) by (unfold d'; lia).
+  replace (Z.to_nat (Z.of_nat d - 1)) with d' by lia.
+  assert (HN2 : N = 2 * 2 ^ Z.of_nat d').
+  { unfold N. rewrite Hdd, Z.pow_add_r by lia. change (2 ^ 1) with 2. lia. }
+  assert (0 < 2 ^ Z.of_nat d') by (apply pow2_pos; lia).
+  assert (Hnext : forall a, In a next -> 2 ^ Z.of_nat d' <= a < 2 ^ (Z.of_nat d' + 1)).
+  { intros a Ha. unfold next in Ha. apply in_map_iff in Ha. destruct Ha as (e & <- & He).
+    destruct (Hnorm e He) as (He0 & Hev & HeN & _). rewrite Z.pow_add_r by lia. change (2 ^ 1) with 2.
+    pose proof (Z.div_mod (e + N) 2 ltac:(lia)). pose proof (Z.mod_pos_bound (e + N) 2 ltac:(lia)). lia. }
+  assert (HNl : 2 ^ (Z.of_nat d' + 1) <= N).
+  { rewrite Z.pow_add_r by lia. change (2 ^ 1) with 2. lia. }
+  destruct (pb_levels_ok d' next nodes0 Hnext HNl) as (NFin & Epl).
+  { unfold next, nodes0, zlen. rewrite !map_length. lia. }
+  change (pb_levels d' (mt_nodes t) next nodes0 = Ok NFin) in Epl.
+  rewrite Epl. cbn [bind]. eexists. split; [reflexivity|]. cbn [bp_depth bp_leaves bp_nodes].
+  assert (Hmod : Z.of_nat d mod 256 = Z.of_nat d) by (apply Z.mod_small; lia).
+  split; [exact Hmod|]. split; [lia|]. split.
+  { intros j i Hj. rewrite <- (Nat2Z.id j) at 1. apply (PLF i (Z.of_nat j)).
+    - apply IM. split; [lia|]. rewrite Nat2Z.id. assumption.
+    - left. apply normalize_In. exists i. split; [apply nth_error_In in Hj; assumption|reflexivity]. }
+  (* get_root on the produced proof *)
+  unfold Merkle.get_root. rewrite match_nonempty by assumption. unfold max_paths.
+  destruct (Z.ltb_spec 255 (zlen indexes)); [lia|]. cbn [bp_leaves].
+  replace (zlen indexes =? zlen LF) with true by (symmetry; apply Z.eqb_eq; unfold zlen; lia). cbn [negb].
+  unfold Merkle.gcore. cbn [bp_depth bp_nodes bp_leaves]. rewrite Hmod. rewrite Emi. cbn [bind]. fold norm.
+  pose proof (pb_levels_mono _ _ _ _ Epl) as Fpl.
+  assert (Hlen0 : length NFin = length norm).
+  { apply Forall2_len in Fpl. unfold nodes0 in Fpl. rewrite map_length in Fpl. lia. }
+  replace (zlen norm =? zlen NFin) with true by (symmetry; apply Z.eqb_eq; unfold zlen; lia). cbn [negb].
+  fold N.
+  destruct (gfirst_ok indexes imap IM LF NFin norm LLF) with (norm := norm) (s := 0) (v := @nil (Z * D)) (ptm := @nil (Z * D)) (NFr := NFin)
+    as (v1 & ptm1 & Egf & Hv1 & _ & Hk1).
+  { intros k j Ek Hin. apply PLF; [assumption|]. left. assumption. }
+  { reflexivity. }
+  { lia. }
+  { clear - Fpl. unfold nodes0 in Fpl. remember norm as nm eqn:En. clear En. revert NFin Fpl.
+    induction nm as [|e r IH]; intros NFin Fpl; inversion Fpl; subst; constructor; auto. }
+  { exact Hnorm. }
+  { intros k x Hk0. discriminate. }
+  replace {| bp_leaves := LF; bp_nodes := NFin; bp_depth := Z.of_nat d |}
+    with {| bp_leaves := LF; bp_nodes := NFin; bp_depth := Z.of_nat d mod 256 |} in Egf by (rewrite Hmod; reflexivity).
+  rewrite Hmod in Egf. rewrite Egf. cbn [bind].
+  replace (map (fun e => zlen (miss imap e)) norm) with (map zlen nodes0) by (unfold nodes0; rewrite map_map; reflexivity).
+  fold next.
+  destruct (levels_complete d' next nodes0 NFin v1 ptm1 Epl Hnext HNl Hv1) as (v' & ptm' & Egl & Hv' & Hroot1).
+  { intros a Ha. unfold next in Ha. apply in_map_iff in Ha. destruct Ha as (e & <- & He). apply Hk1. assumption. }
+  replace (Z.to_nat (Z.of_nat d - 1)) with d' by lia.
+  rewrite Egl. cbn [bind]. rewrite all_consumed_map. cbn [negb bind].
+  assert (Hnn : next <> []).
+  { unfold next. pose proof (normalize_nonempty indexes Hne) as Hnz. fold norm in Hnz. destruct norm; [congruence|discriminate]. }
+  specialize (Hroot1 Hnn). destruct (bt_get 1 v') as [r|] eqn:Er; [|congruence].
+  apply Hv' in Er. destruct Er as [_ ->]. reflexivity.
+Qed.
+
 End Batch.
+
+Section BatchTop.
+Variable D : Type.
+Variable D_eqb : D -> D -> bool.
+Hypothesis D_eqb_spec : forall a b, D_eqb a b = true <-> a = b.
+Variable d0 : D.
+Variable merge : D -> D -> D.
+
+Theorem batch_complete : forall leaves t (d : nat) root indexes,
+  mt_new D d0 merge leaves = Ok t -> zlen leaves = 2 ^ Z.of_nat d -> (d <= 62)%nat -> mt_root D t = Ok root ->
+  indexes <> [] -> zlen indexes <= 255 -> NoDup indexes -> (forall i, In i indexes -> 0 <= i < zlen leaves) ->
+  exists p, mt_prove_batch D d0 t indexes = Ok p /\ bp_depth p = Z.of_nat d /\
+    length (bp_leaves p) = length indexes /\
+    (forall j i, nth_error indexes j = Some i -> nth_error (bp_leaves p) j = nth_error leaves (Z.to_nat i)) /\
+    get_root D merge p indexes = Ok root /\
+    verify_batch D D_eqb merge root indexes p = Ok tt.
+Proof.
+  intros leaves t d root indexes Hnew Hlen Hd Hroot Hne Hl ND Hr.
+  destruct (build_nodes_spec D d0 merge _ _ Hnew) as [HL [d' WF]].
+  assert (d' = d).
+  { pose proof (wf_leaves _ _ _ _ _ WF) as E. rewrite HL, Hlen in E. apply Z.pow_inj_r in E; lia. }
+  subst d'. rewrite (root_hval D d0 merge t d WF) in Hroot; try assumption. injection Hroot as <-.
+  destruct (batch_complete_tree D d0 merge t d WF Hd indexes Hne Hl ND) as (p & E & Hdep & HLn & HLv & Hg).
+  { intros i Hi. rewrite <- Hlen. apply Hr. assumption. }
+  exists p. split; [assumption|]. split; [assumption|]. split; [assumption|]. split; [|split; [assumption|]].
+  - intros j i Hj. rewrite (HLv j i Hj). unfold leaf, znth. rewrite HL. symmetry. apply nth_error_nth'.
+    pose proof (Hr i (nth_error_In _ _ Hj)). unfold zlen in *. lia.
+  - unfold Merkle.verify_batch. rewrite Hg. cbn [bind].
+    replace (D_eqb _ _) with true by (symmetry; apply D_eqb_spec; reflexivity). reflexivity.
+Qed.
+
+End BatchTop.
